@@ -10,7 +10,7 @@
      every with-argument accessor leaves every existing object unchanged, for every way the parameters are held.
    _partial: the accessors data(arg) / unlink() are proved only for parameters that are not held in the module's
    _parameters dict; composite transforms (shared sub-modules) and MultiLevelTransform.tensor() are outside the model
-   and covered by the runtime sweep only; the skeleton names listed in Model/HeapPins.v are too coarse to be proved clean. *)
+   and covered by the runtime sweep only; the skeleton names listed in Model/HeapPins.v have a possibly written parameter in their checked summary (abstraction too coarse, or callers of such functions). *)
 From Coq Require Import String List Bool Arith Lia.
 From DV Require Import Model.ObjGraph Model.Heap Model.HeapPins Gen.MutSkeleton Proofs.C15Graph Proofs.C15Indep.
 Import ListNotations.
@@ -77,10 +77,19 @@ Theorem C15_independent_both_ways :
 Proof. exact independence. Qed.
 Print Assumptions C15_independent_both_ways.
 
-(* 5. effect skeletons: no parameter's tensor is written, for every branch vector, for every translated function
-      that is not on the explicit list of functions left to the runtime sweep *)
+(* 5. effect skeletons with interprocedural summaries.  Every function's claimed summary (parameters its result may refer
+      to, parameters it may write in place) covers what its skeleton can do for every branch vector, given the claimed
+      summaries of the package functions it calls ... *)
+Theorem C15_summaries_valid : all_summaries_ok gen_skeletons gen_summaries = true.
+Proof. vm_compute. exact eq_refl. Qed.
+Print Assumptions C15_summaries_valid.
+
+(* ... and the summary of every translated function that is not on the explicit list left to the runtime sweep has no
+   written parameter: the function leaves the tensors of all its arguments alone (explicit `out` arguments and the
+   `inplace=True` branches excepted by construction of the skeleton) *)
 Theorem C15_no_arg_mutation :
-  forallb (fun sk => no_arg_mutation sk || existsb (String.eqb (sk_name sk)) heap_unproven) gen_skeletons = true.
+  forallb (fun p => no_arg_mutation (snd p) || existsb (String.eqb (sk_name (fst p))) heap_unproven)
+          (combine gen_skeletons gen_summaries) = true.
 Proof. vm_compute. exact eq_refl. Qed.
 Print Assumptions C15_no_arg_mutation.
 
@@ -93,6 +102,8 @@ Example C15_nonvacuous :
      = map (fun e => match e with (n, k, _, v) => (n, k, v) end) (snd (fst (snap st' tr0)))   (* ... with equal contents *)
   /\ (let '(st2, a2, b2) := run_trace st' tr0 o' [(SA, MEditParam n_params); (SB, MSetParam n_params 3); (SA, MDelBuf n_u)] in
       snap_eqb (snap st2 a2) (snap st' tr0) = false /\ snap_eqb (snap st2 b2) (snap st' o') = false)
-  /\ no_arg_mutation (mkSkel "bad" [0] 2 0 [IAssign true 1 [SVar 0]; IInplace 1]) = false
+  /\ summary_ok [] (mkSkel "bad" [0] 3 0 2 [IAssign true 1 [SVar 0]; IInplace 1; IAssign true 2 [SVar 1]]) ([0], []) = false
+  /\ summary_ok [] (mkSkel "bad" [0] 3 0 2 [IAssign true 1 [SVar 0]; IInplace 1; IAssign true 2 [SVar 1]]) ([0], [0]) = true
+  /\ summary_ok [([0], [0])] (mkSkel "caller" [0] 3 0 2 [ICallW 0 0 0; IAssign true 2 [SRet 0 0 0]]) ([0], []) = false
   /\ (200 <=? length gen_skeletons) = true.
 Proof. vm_compute. repeat split. Qed.
